@@ -588,8 +588,8 @@ Proof.
   assert (D3 : dirs_ok base fs3 dirs) by (apply (dirs_ok_rpres base fs2); [exact (preserves_rpres _ _ P3)|exact D2]).
   destruct r3 as [[]|e3]; [|injection H as <- <- <-; fin3 S3' I3 D3].
   assert (Hnl3 : nolink fs3 lp) by (apply P3, Hnl2).
-  destruct (chtimes fs3 lp (e_mtime e)) as [fs4 r4] eqn:Et.
-  destruct (chtimes_wr fs3 lp Hd3 Hpl (e_mtime e) fs4 r4 Hnl3 Et) as (W4 & Hd4).
+  destruct (chtimes fs3 lp (sec_to_ns (e_mtime e))) as [fs4 r4] eqn:Et.
+  destruct (chtimes_wr fs3 lp Hd3 Hpl (sec_to_ns (e_mtime e)) fs4 r4 Hnl3 Et) as (W4 & Hd4).
   rewrite Hlp in W4. destruct (wrn_step base fs3 comps fs4 W4) as [S4 P4].
   assert (S4' : steps base fs fs4) by (eapply steps_trans; eauto).
   assert (I4 : inv base fs4) by (constructor; [exact Hd4|apply P4, (i_base _ _ I3)]).
@@ -627,9 +627,9 @@ Proof.
     destruct (tolerate (fs1, r1)) as [fsa oa] eqn:Ta.
     assert (fsa = fs1) by (destruct r1 as [[]|[]]; cbn in Ta; congruence). subst fsa.
     destruct oa; [injection H as <- <-; exact S1|].
-    destruct (chtimes fs1 p (e_mtime e)) as [fs2 r2] eqn:Et.
+    destruct (chtimes fs1 p (sec_to_ns (e_mtime e))) as [fs2 r2] eqn:Et.
     assert (Hrp1 : rdir fs1 p) by (apply P1, Hrp).
-    destruct (chtimes_wr fs1 p Hd1 Hpl (e_mtime e) fs2 r2 (rdir_nolink _ _ Hrp1) Et) as (W2 & Hd2).
+    destruct (chtimes_wr fs1 p Hd1 Hpl (sec_to_ns (e_mtime e)) fs2 r2 (rdir_nolink _ _ Hrp1) Et) as (W2 & Hd2).
     rewrite Hrel in W2. destruct (wrn_step base fs1 rel fs2 W2) as [S2 P2].
     assert (I2 : inv base fs2) by (constructor; [exact Hd2|apply P2, (i_base _ _ I1)]).
     destruct (tolerate (fs2, r2)) as [fsb ob] eqn:Tb.
